@@ -15,7 +15,7 @@ CHECKS = {
                 "step start are compared with a reference computed from the spec, for fresh detectors, detectors with planted leftovers and detectors "
                 "that already ran other exposures. Mutated (invalid) schedules must raise before any probe runs. Exploration.",
         "design_ref": "DESIGN.md section 3, C02",
-        "note": "Written values include non-finite content (nan / inf) for the float buckets. Trusted: probe reads through the detector's public properties. NaN schedules and zeros at later positions are outside both the accept and the reject set. A quarter of the cases run through the older pyxel.exposure_mode loop. Part 'readout_sweep': schedules produced by a dask sweep of observation.readout.times with generated start times. After a refused times / start_time setter a run must step through the schedule the Readout held before. Readout-time files come as one value per line, one comma-separated line, and 1-D / (1,N) / (N,1) arrays.",
+        "note": "Written values include non-finite content (nan / inf) for the float buckets. Trusted: probe reads through the detector's public properties. NaN schedules and zeros at later positions are outside both the accept and the reject set. A quarter of the cases run through the older pyxel.exposure_mode loop. Part 'readout_sweep': schedules produced by a dask sweep of observation.readout.times with generated start times. After a refused times / start_time setter a run must step through the schedule the Readout held before. Readout-time files come as one value per line, one comma-separated line, and 1-D / (1,N) / (N,1) arrays. Earlier runs on the same detector include runs with the very same times and mode and another start time.",
     },
     "C03": {
         "technique": "property-based testing: generated writer-probe pipelines with per-step plans and dtypes; result slices, labels, dtypes, scene/data nodes and debug records compared with in-run snapshots; flat-vs-hierarchical and debug-on-vs-off differentials",
@@ -24,7 +24,7 @@ CHECKS = {
                 "labels/dtypes are checked, layouts and debug on/off must agree, and every debug record is checked for soundness and completeness "
                 "against before/after snapshots of each writer. Exploration.",
         "design_ref": "DESIGN.md section 3, C03",
-        "note": "Trusted: snapshot probes (public API reads). Known finding K4 (uint64 > 2^53) is excluded from the main generator and probed separately. Float buckets also carry nan / inf frames; a bucket may be updated in place by a second model of the same step. Debug records are checked for soundness, completeness and minimality (a bucket neither the model nor the preceding reset touched must not be recorded; frames containing NaN excepted).",
+        "note": "Trusted: snapshot probes (public API reads). Known finding K4 (uint64 > 2^53) is excluded from the main generator and probed separately. Float buckets also carry nan / inf frames; a bucket may be updated in place by a second model of the same step. Debug records are checked for soundness, completeness and minimality (a bucket neither the model nor the preceding reset touched must not be recorded; frames containing NaN excepted). A third of the multi-wavelength cubes carry 'y' / 'x' positions of their own (the result must still be labelled with row / column indices).",
     },
     "C15": {
         "technique": "property-based testing of the listed library models with generated frames/parameters against accounting oracles (exact identity, min, idempotence, kernel sum, conservation invariants), repeated over generated steps",
@@ -73,7 +73,7 @@ CHECKS = {
                 "reads, removals and resets are applied to detector.charge and to an exact per-pixel accumulator; the reported array must equal the accumulator after every step, "
                 "outside clusters must be credited nowhere and must not crash or corrupt memory. Exploration.",
         "design_ref": "DESIGN.md section 3, C14",
-        "note": "Child processes run with NUMBA_BOUNDSCHECK=1 (sanitizer-style). Only non-negative charge is added. Cluster columns are float64 or object-typed (as pyxel's own charge_deposition hands them over; finding F33, fixed). Histories contain a 'restore' operation (the detector rebuilt through to_dict / from_dict). 'resize' operations and a structured part change the pixel sizes of the same geometry object between two lives of the detector.",
+        "note": "Child processes run with NUMBA_BOUNDSCHECK=1 (sanitizer-style). Only non-negative charge is added. Cluster columns are float64 or object-typed (as pyxel's own charge_deposition hands them over; finding F33, fixed). Histories contain a 'restore' operation (the detector rebuilt through to_dict / from_dict). 'resize' operations and a structured part change the pixel sizes of the same geometry object between two lives of the detector. A structured family removes clusters by id in 2..4 rounds without an addition in between.",
     },
     "C18": {
         "technique": "round-trip property-based testing (save -> load) with the harness's own field-by-field comparator over generated detectors and container subsets; in-pipeline differential for the load_detector model",
@@ -82,7 +82,7 @@ CHECKS = {
                 "container are compared field by field. A file made from detector X is loaded by the load_detector model at a generated pipeline position of a running detector Y; "
                 "the detector after the run and the returned result must hold X's data. Exploration.",
         "design_ref": "DESIGN.md section 3, C18",
-        "note": "HDF5 skipped (h5py absent; counted). Containers compared by emptiness, shape, dtype kind and exact values. The data tree includes groups without variables (coordinates only, attributes only, empty leaf); group existence and attributes are compared. The model part also compares the /data and /scene groups of the returned result with the file. Multi-wavelength photons use increasing, decreasing and shuffled wavelength axes.",
+        "note": "HDF5 skipped (h5py absent; counted). Containers compared by emptiness, shape, dtype kind and exact values. The data tree includes groups without variables (coordinates only, attributes only, empty leaf); group existence and attributes are compared. The model part also compares the /data and /scene groups of the returned result with the file. Multi-wavelength photons use increasing, decreasing and shuffled wavelength axes. The kind of type (integer / float) of every cluster-table column is part of the comparison.",
     },
     "C12": {
         "technique": "exhaustive field x value-class x path acceptance grid (differential between constructor, YAML, setter, Processor.set and sweep against the documented range table) plus property-based testing of generated whole configuration documents (YAML vs Python construction differential)",
@@ -98,7 +98,7 @@ CHECKS = {
                 "the snapshot of all settings must change in exactly that key to the value the text literally denotes, get/has must agree. Mutated keys must be refused by Processor.set, "
                 "sequential and dask observations (product/sequential), and run_mode overrides before any probe model runs and without inventing attributes; sweeping an argument of a disabled model must raise. Exploration.",
         "design_ref": "DESIGN.md section 3, C08",
-        "note": "Ambiguous textual spellings (quotes, blanks, hex, True/None) are not generated. Calibration entry point for invalid keys is exercised in C10. Part 'nested': keys inside mapping- / list-of-mappings-valued arguments over a generated history of set / replace / create_new_processor / deepcopy on a pool of processors (finding F35, fixed). The nested part also issues misspelt nested keys, which set / replace must refuse. List values draw explicit zero elements (falsy but valid).",
+        "note": "Ambiguous textual spellings (quotes, blanks, hex, True/None) are not generated. Calibration entry point for invalid keys is exercised in C10. Part 'nested': keys inside mapping- / list-of-mappings-valued arguments over a generated history of set / replace / create_new_processor / deepcopy on a pool of processors (finding F35, fixed). The nested part also issues misspelt nested keys, which set / replace must refuse. List values draw explicit zero elements (falsy but valid). For a model's enabled flag the texts 'True' / 'False' are assigned too (what a command-line override passes).",
     },
     "C05": {
         "technique": "property-based testing: generated parameter spaces (product / sequential / custom, scalar and vector parameters, colliding names, numpy expressions, disabled parameters) against itertools reference enumerators; echo probes encode received values so that label-based selection is checkable",
@@ -123,7 +123,7 @@ CHECKS = {
                 "executed: the call or compute() must raise with the unique token, the injected type, group and model name and (sequentially) the run's parameter values; no result object, no later call, "
                 "no computable bucket of the failing run. Fault enumeration: complete per configuration, configurations sampled.",
         "design_ref": "DESIGN.md section 3, C09",
-        "note": "Calibration-phase faults are enumerated in the calibration part once registered. The dask metadata run may surface the fault at run_mode. Entry points: pyxel.run_mode, pyxel.run(<yaml>) with and without an outputs section, pyxel.exposure_mode / observation_mode (finding F36, fixed; the parameter-value note is asserted only behind run_mode / run, where the property places it). A third of the configurations raise the very same exception object at every site.",
+        "note": "Calibration-phase faults are enumerated in the calibration part once registered. The dask metadata run may surface the fault at run_mode. Entry points: pyxel.run_mode, pyxel.run(<yaml>) with and without an outputs section, pyxel.exposure_mode / observation_mode (finding F36, fixed; the parameter-value note is asserted only behind run_mode / run, where the property places it). A third of the configurations raise the very same exception object at every site. A third of the configurations set a working directory on the running mode.",
     },
     "C19": {
         "technique": "property-based testing of generated start histories with a harness-owned clock (same-second starts constructed), barrier-released concurrent starts and pre-populated colliding names; read-back differential of every reported file against the result bucket with the same label; before/after content hash of pre-existing files",
@@ -148,7 +148,7 @@ CHECKS = {
                 "evaluation and valid ones accepted. In short real runs the reported champion fitness must be reproduced by re-simulating the reported parameters, /simulated and /full_size must be computable and equal "
                 "the re-simulation, and the champion fitness must not increase over evolutions. Exploration.",
         "design_ref": "DESIGN.md section 3, C11",
-        "note": "Tolerance 1e-9 relative. reduced chi-squared with fewer data points than free parameters is outside its domain (counted as excluded). Half of the run cases calibrate a stochastic pipeline under a declared pipeline_seed (one island; parallel islands race on the global generator = K2). A third of the run cases rewrite the target / weight files and calibrate again in the same process. Half of the run cases declare the fit ranges after construction (attributes or run_mode override).",
+        "note": "Tolerance 1e-9 relative. reduced chi-squared with fewer data points than free parameters is outside its domain (counted as excluded). Half of the run cases calibrate a stochastic pipeline under a declared pipeline_seed (one island; parallel islands race on the global generator = K2). A third of the run cases rewrite the target / weight files and calibrate again in the same process. Half of the run cases declare the fit ranges after construction (attributes or run_mode override). The run part draws sade, sga and NLopt with every selection / replacement policy over 2..5 evolutions.",
     },
     "C04": {
         "technique": "property-based testing: (a) seeding helper against a private RandomState and state identity, (b) introspection-discovered seeded models run twice from different generator states, (c) generated stochastic pipelines re-run from different prior states / process histories in every mode, (d) injectivity-based leak detector for unseeded random models",
@@ -156,7 +156,7 @@ CHECKS = {
                 "4 listed as skipped) must be reproducible and state-preserving; generated pipelines of the stochastic library models with a pipeline_seed must give bit-identical result trees in exposure, sequential and dask "
                 "observation and calibration from different prior states, after unseeded or failing runs, and restore the generator also when a model raises; unseeded random models must not re-seed the process. Exploration.",
         "design_ref": "DESIGN.md section 3, C04",
-        "note": "Dask paths on the synchronous scheduler (threaded race = C07's known finding K2). Every model with a seed argument has a recipe (17 models, 34 option variants incl. charge_deposition with tabulated spectra, cosmix, nghxrg), each option variant taking another random-number path. pulse_processing's minutes-long phase conversion is stubbed from outside. The ends of both seed ranges (pipeline_seed 0 / 2^32-1, pygmo_seed 0 / 1 / 100000) are enumerated for calibration. Half of the run cases repeat the run on the very same detector / pipeline / mode objects instead of rebuilding them.",
+        "note": "Dask paths on the synchronous scheduler (threaded race = C07's known finding K2). Every model with a seed argument has a recipe (17 models, 34 option variants incl. charge_deposition with tabulated spectra, cosmix, nghxrg), each option variant taking another random-number path. pulse_processing's minutes-long phase conversion is stubbed from outside. The ends of both seed ranges (pipeline_seed 0 / 2^32-1, pygmo_seed 0 / 1 / 100000) are enumerated for calibration. Half of the run cases repeat the run on the very same detector / pipeline / mode objects instead of rebuilding them. A third of the 'runs' cases write outputs into one parent folder (the second start finds the first one's folder name taken).",
     },
     "C07": {
         "technique": "differential property-based testing: with_dask result under generated schedulers (synchronous, thread pools of 1/2/4/16, process pools of 2/4) with data-dependent delays vs the sequential result, compared label by label; harness-owned schedule (barrier) for the known seeding race; calibration outcome differential across schedulers and island-creation modes",
@@ -164,6 +164,6 @@ CHECKS = {
                 "outputs on or off: every bucket and every reported file must agree with the sequential result at the same label. Calibrations with fixed seeds (1..3 unconnected islands) must report identical champions under the "
                 "synchronous scheduler, thread pools of 4 and 16 and with serial island creation. Exploration: free-running pools are sampled, the oracle is schedule independent.",
         "design_ref": "DESIGN.md section 3, C07",
-        "note": "Known findings K1 (sequential mode, >=2 parameters) and K2 (seeded stochastic pipelines under threads; made deterministic with a barrier) are excluded from the generator and probed. Connected island topologies use pygmo's asynchronous migration and are not asserted. Part 'short_name_collisions' enumerates every declaration order of two parameters sharing a short name and a third one.",
+        "note": "Known findings K1 (sequential mode, >=2 parameters) and K2 (seeded stochastic pipelines under threads; made deterministic with a barrier) are excluded from the generator and probed. Connected island topologies use pygmo's asynchronous migration and are not asserted. Part 'short_name_collisions' enumerates every declaration order of two parameters sharing a short name and a third one. A quarter of the pipelines contain a model that keeps memory on the detector.",
     },
 }
